@@ -12,7 +12,11 @@ import (
 	"time"
 
 	sdkmath "cosmossdk.io/math"
+	"cosmossdk.io/store"
+	pruningtypes "cosmossdk.io/store/pruning/types"
 	abci "github.com/cometbft/cometbft/abci/types"
+	"github.com/cosmos/cosmos-sdk/baseapp"
+	"github.com/cosmos/cosmos-sdk/telemetry"
 	sdk "github.com/cosmos/cosmos-sdk/types"
 	authtypes "github.com/cosmos/cosmos-sdk/x/auth/types"
 	vestingtypes "github.com/cosmos/cosmos-sdk/x/auth/vesting/types"
@@ -56,6 +60,9 @@ var (
 	c01T2100       = time.Date(2100, 1, 1, 0, 0, 0, 0, time.UTC)
 	c01CurBlockTim time.Time
 )
+
+// c01NodeCfgDims: two-valued node-local configuration dimensions (default / the other value).
+var c01NodeCfgDims = []string{"cfg:telemetry", "cfg:max-tx-gas-wanted", "cfg:iavl-disable-fastnode", "cfg:inter-block-cache", "cfg:pruning", "cfg:index-events", "cfg:query-gas-limit", "cfg:iavl-cache-size"}
 
 type c01Kind string
 
@@ -142,6 +149,28 @@ func c01Config(p c01Policy) world.Config {
 		cfg.EvmTracer = "access_list"
 	case 4:
 		cfg.EvmTracer = "markdown"
+	}
+	// further node-local settings of app.toml, as server/start hands them to the app (c01NodeCfgDims lists them)
+	if p["cfg:max-tx-gas-wanted"] == 1 {
+		cfg.ExtraAppOpts = map[string]interface{}{"evm.max-tx-gas-wanted": uint64(50_000)}
+	}
+	if p["cfg:iavl-disable-fastnode"] == 1 {
+		cfg.ExtraBaseOpts = append(cfg.ExtraBaseOpts, baseapp.SetIAVLDisableFastNode(true))
+	}
+	if p["cfg:inter-block-cache"] == 1 {
+		cfg.ExtraBaseOpts = append(cfg.ExtraBaseOpts, baseapp.SetInterBlockCache(store.NewCommitKVStoreCacheManager()))
+	}
+	if p["cfg:pruning"] == 1 {
+		cfg.ExtraBaseOpts = append(cfg.ExtraBaseOpts, baseapp.SetPruning(pruningtypes.NewPruningOptionsFromString(pruningtypes.PruningOptionEverything)))
+	}
+	if p["cfg:index-events"] == 1 {
+		cfg.ExtraBaseOpts = append(cfg.ExtraBaseOpts, baseapp.SetIndexEvents([]string{"message.sender", "ethereum_tx.ethereumTxHash"}))
+	}
+	if p["cfg:query-gas-limit"] == 1 {
+		cfg.ExtraBaseOpts = append(cfg.ExtraBaseOpts, baseapp.SetQueryGasLimit(10_000))
+	}
+	if p["cfg:iavl-cache-size"] == 1 {
+		cfg.ExtraBaseOpts = append(cfg.ExtraBaseOpts, baseapp.SetIAVLCacheSize(1))
 	}
 	return cfg
 }
@@ -276,6 +305,16 @@ func c01ExecConc(c c01Case, p c01Policy, conc *c01Conc) (vec []string, hits c01H
 	defer func() { vrt.MapOrder, vrt.Clock, vrt.OnSpawn = nil, nil, nil }()
 
 	hits["cfg:min-gas-prices"] = 2
+	for _, d := range c01NodeCfgDims {
+		hits[d] = 2
+	}
+	if p["cfg:telemetry"] == 1 {
+		// telemetry.enabled of app.toml: a process-wide switch (telemetry.New sets it, as server/start does)
+		if _, err := telemetry.New(telemetry.Config{Enabled: true, ServiceName: "c01", EnableHostname: false}); err != nil {
+			panic(err)
+		}
+		defer func() { _, _ = telemetry.New(telemetry.Config{Enabled: false}) }()
+	}
 	hits["cfg:tracer"] = 5 // every value server/config accepts: "", json, struct, access_list, markdown
 	hits["between"] = 4
 	if p["cfg:tracer"] != 0 {
